@@ -41,6 +41,10 @@ pub fn small_len(r: &mut Rng) -> usize {
 pub const N_SHAPES: u64 = 12;
 
 /// magnitude of exactly `n` limbs (top limb may be anything incl. zero for some shapes)
+/// Set by the monitors (not by the C19 digest worker, whose corpus must be identical in every build): operand
+/// shapes may depend on the machine word size of the build.
+pub static WORD_AWARE: std::sync::atomic::AtomicBool = std::sync::atomic::AtomicBool::new(false);
+
 pub fn shape(r: &mut Rng, n: usize) -> Vec<u64> {
     if n == 0 {
         return vec![];
@@ -135,7 +139,7 @@ pub fn shape(r: &mut Rng, n: usize) -> Vec<u64> {
     }
     // lengths are drawn in 64-bit limbs; in a build with 32-bit machine words half of the values get a top limb
     // below 2^32, so that odd word counts (15 words, 25 words, ...) are explored as often as even ones
-    if dashu_int::Word::BITS == 32 && r.bool() {
+    if dashu_int::Word::BITS == 32 && WORD_AWARE.load(std::sync::atomic::Ordering::Relaxed) && r.bool() {
         let t = v[n - 1] & 0xffff_ffff;
         v[n - 1] = if t == 0 { 1 } else { t };
     }
